@@ -440,6 +440,9 @@ func (e *Env) index(base, idx Val, ex Expr) Val {
 			elem = types.Typ[types.Uint8]
 		}
 		m := e.heap(memName(es, elem), "(Array Int "+es+")")
+		if idx.AbsOf != "" && idx.AbsOf == base.T {
+			return term(sel(sel(m, app("sarr", base.T)), idx.AbsJ), es, elem)
+		}
 		return term(sel(sel(m, app("sarr", base.T)), app("+", app("soff", base.T), idx.T)), es, elem)
 	}
 	if strings.HasPrefix(base.S, "(Array Int ") {
@@ -492,6 +495,33 @@ func (e *Env) quant(q *EQuant) Val {
 		}
 		decls = append(decls, "("+sym+" Int)")
 		names = append(names, sym)
+	}
+	// `forall i in S :: ...` over the valid indices of slice S: the bound SMT variable is the absolute
+	// position j = soff(S)+i, so that S[i] is the plain read (select content j) -- a usable trigger
+	if q.Lo != nil && q.Hi == nil {
+		sv := e.eval(q.Lo)
+		if sv.S != SSlice {
+			e.fail("`in` without range needs a slice")
+		}
+		j := names[0]
+		iv := intv(app("-", j, app("soff", sv.T)))
+		iv.AbsOf, iv.AbsJ = sv.T, j
+		vars[q.Vars[0]] = iv
+		ne := e.sub(vars)
+		body := ne.eval(q.Body)
+		if body.S != SBool {
+			e.fail("quantifier body not boolean")
+		}
+		rng := and(app("<=", app("soff", sv.T), j), app("<", j, app("+", app("soff", sv.T), app("slen", sv.T))))
+		var b string
+		kw := "exists"
+		if q.All {
+			kw = "forall"
+			b = implies(rng, body.T)
+		} else {
+			b = and(rng, body.T)
+		}
+		return boolv("(" + kw + " (" + strings.Join(decls, " ") + ") " + b + ")")
 	}
 	ne := e.sub(vars)
 	body := ne.eval(q.Body)
@@ -749,6 +779,20 @@ func (e *Env) evalTargets(list []string) (ts []target, err error) {
 				e.fail("unknown heap array %q in modifies", name)
 			}
 			ts = append(ts, target{array: arr, esort: es, fresh: true})
+		case strings.HasPrefix(s, "mapcontent(") && strings.HasSuffix(s, ")"):
+			// the entries of one map object
+			inner := s[len("mapcontent(") : len(s)-1]
+			ex, perr := parseExpr(inner)
+			if perr != nil {
+				e.fail("%v", perr)
+			}
+			v := e.eval(ex)
+			mt, ok := v.Ty.Underlying().(*types.Map)
+			if !ok {
+				e.fail("mapcontent() of non-map %s", inner)
+			}
+			ts = append(ts, target{array: mapName(mt.Elem()), esort: "(Array Int " + sortOf(mt.Elem()) + ")", ref: v.T})
+			ts = append(ts, target{array: "map.dom", esort: "(Array Int Bool)", ref: v.T})
 		case strings.HasPrefix(s, "elems(") && strings.HasSuffix(s, ")"):
 			// the elements of the array a pointer-to-array designates (nil pointer: nothing)
 			inner := s[len("elems(") : len(s)-1]
